@@ -1,5 +1,249 @@
-import NibabelModel.Model.C07
-/-! Props/C07 — the property theorems for C07 (statements + proofs; helper lemmas live in Lemmas/). -/
+import NibabelModel.Lemmas.C07
+/-! Props/C07 — "saving never changes the image, even when the write fails part-way".
+
+  All theorems are about the step machine of Model/C07.lean (the control flow of `to_file_map` of the nine
+  writable volume classes after the two `fix:` commits) and hold for EVERY class, initial state, fault
+  (`Fault.none`, the k-th I/O call for every k, every byte budget), dtype override, alias, and every
+  external behaviour `Env` (writer raising or not, any computed slope/inter, any number of writes, any
+  extension / .mat sizes, owned or caller-provided file objects).
+
+  Guards (what the real code needs, stated as hypotheses):
+  * `Img.wf`  — the header's dtype code is one the header class supports (true of every image nibabel
+    builds: `set_data_dtype` refuses anything else; `gen_tables_ok` shows such a code survives
+    `hdr.set_data_dtype(hdr.get_data_dtype())`, which is what the `finally:` blocks execute);
+  * `Env.ok`  — a dtype alias resolves to a dtype the NIfTI header supports (uint8/int16/int32/float32).
+-/
 namespace Nb.C07
+
+/-- Leg T: for every class, every supported dtype code survives code → dtype → code (regenerated table) -/
+theorem gen_tables_ok : ∀ cls : Cls, ∀ c ∈ cls.traits.codes, cls.traits.roundtrip.lookup c = some c := by
+  intro cls; cases cls <;> decide
+
+theorem rtCode_id (cls : Cls) (c : Nat) (h : c ∈ cls.traits.codes) : rtCode cls.traits c = c := by
+  unfold rtCode; rw [gen_tables_ok cls c h]
+
+def Core.wf (cls : Cls) (k : Core) : Prop := k.hdr.dtype ∈ cls.traits.codes
+def Img.wf (cls : Cls) (img : Img) : Prop := Core.wf cls img.core
+def Env.ok (cls : Cls) (env : Env) : Prop := ∀ a c, env.resolve a = some c → c ∈ cls.traits.codes
+
+theorem saveWorld_img (cls : Cls) (env : Env) (dt : DtReq) (fault : Fault) (k : Core)
+    (hwf : Core.wf cls k) (henv : env.ok cls) :
+    (saveWorld cls env dt fault { img := k }).2.img = k := by
+  cases cls <;> simp only [saveWorld]
+  · exact analyzeSave_img _ env dt fault _ (rtCode_id .analyze _ hwf)
+  · exact spmSave_img _ env dt fault _ (rtCode_id .spm99 _ hwf)
+  · exact spmSave_img _ env dt fault _ (rtCode_id .spm2 _ hwf)
+  · exact niftiSave_img _ env dt fault _ (rtCode_id .n1pair) hwf henv
+  · exact niftiSave_img _ env dt fault _ (rtCode_id .n1single) hwf henv
+  · exact niftiSave_img _ env dt fault _ (rtCode_id .n2pair) hwf henv
+  · exact niftiSave_img _ env dt fault _ (rtCode_id .n2single) hwf henv
+  · exact mghSave_img _ env dt fault _
+  · exact ciftiSave_img env dt fault _
+
+/-- **save_preserves_state**: for every class, state, fault point (none / any k / any byte budget), dtype
+    override, alias and external behaviour, the observable image (consumable header fields, dtype code,
+    alias, data, affine, header object) after `to_file_map` equals the one before — whether the save
+    succeeded or raised anything anywhere. -/
+theorem save_preserves_state (cls : Cls) (env : Env) (req : SaveReq) (img : Img)
+    (hwf : img.wf cls) (henv : env.ok cls) :
+    (save cls env req img).img.core = img.core := by
+  unfold save finish
+  exact saveWorld_img cls env req.dtype req.fault img.core hwf henv
+
+/-- a concrete faulted save satisfying the guards (non-vacuity): float data stored as int16 in a NIfTI-1
+    single file with the alias `compat`, OSError at the 10th I/O call (the first data write) -/
+def exEnv : Env :=
+  { owned := false, exts := [(11, 13)], mat := [], resolve := fun _ => some 4,
+    writer := fun _ => ⟨true, some 1000, some 2000, 3, 40⟩ }
+def exImg : Img :=
+  { core := { hdr := ⟨0, 64, none, none⟩, alias := some .compat, data := 1, affine := 2, hdrObj := 0 }, fileMap := 0 }
+def exReq (k : Nat) : SaveReq := { dtype := .none, fileMap := some 7, fault := .call k }
+
+example : exImg.wf .n1single ∧ exEnv.ok .n1single ∧ (save .n1single exEnv (exReq 10) exImg).err = some .os ∧
+    (save .n1single exEnv (exReq 10) exImg).calls = 10 := by
+  refine ⟨by unfold Img.wf Core.wf; decide, ?_, by decide, by decide⟩
+  intro a c h; cases h; decide
+
+/-- the outcome of a save (error, I/O trace, abstract bytes, resulting image) depends on the image only
+    through its observable state — not on which file_map it is bound to -/
+theorem save_congr (cls : Cls) (env : Env) (req : SaveReq) (a b : Img) (h : a.core = b.core) :
+    (save cls env req a).err = (save cls env req b).err ∧
+    (save cls env req a).out = (save cls env req b).out ∧
+    (save cls env req a).log = (save cls env req b).log ∧
+    (save cls env req a).calls = (save cls env req b).calls ∧
+    (save cls env req a).img.core = (save cls env req b).img.core := by
+  unfold save finish
+  simp [h]
+
+/-- **retry_correct**: after ANY save attempt (any fault point, any override, any external behaviour —
+    failed or not), a following save behaves exactly as it would have on the untouched image: same
+    result, same I/O calls, same bytes (as a function of the state they are computed from). In
+    particular a healthy retry after a failure writes what a first healthy save writes. -/
+theorem retry_correct (cls : Cls) (env1 env2 : Env) (req1 req2 : SaveReq) (img : Img)
+    (hwf : img.wf cls) (henv : env1.ok cls) :
+    let img' := (save cls env1 req1 img).img
+    (save cls env2 req2 img').err = (save cls env2 req2 img).err ∧
+    (save cls env2 req2 img').out = (save cls env2 req2 img).out ∧
+    (save cls env2 req2 img').log = (save cls env2 req2 img).log := by
+  intro img'
+  have h := save_congr cls env2 req2 img' img (save_preserves_state cls env1 req1 img hwf henv)
+  exact ⟨h.1, h.2.1, h.2.2.1⟩
+
+example : (save .n1single exEnv (exReq 10) exImg).err = some .os ∧
+    (save .n1single exEnv ⟨.none, some 8, .none⟩ (save .n1single exEnv (exReq 10) exImg).img).err = none := by
+  decide
+
+/-- the image after `n` saves with the same request -/
+def saves (cls : Cls) (env : Env) (req : SaveReq) : Nat → Img → Img
+  | 0, img => img
+  | n + 1, img => saves cls env req n (save cls env req img).img
+
+theorem saves_core (cls : Cls) (env : Env) (req : SaveReq) (n : Nat) (img : Img)
+    (hwf : img.wf cls) (henv : env.ok cls) : (saves cls env req n img).core = img.core := by
+  induction n generalizing img with
+  | zero => rfl
+  | succ n ih =>
+      have hp := save_preserves_state cls env req img hwf henv
+      unfold saves
+      rw [ih _ (by unfold Img.wf; rw [hp]; exact hwf), hp]
+
+/-- **repeat_identical**: for every n, the (n+1)-th save of an otherwise unchanged image gives the
+    same result, I/O trace and bytes as the first -/
+theorem repeat_identical (cls : Cls) (env : Env) (req : SaveReq) (n : Nat) (img : Img)
+    (hwf : img.wf cls) (henv : env.ok cls) :
+    (save cls env req (saves cls env req n img)).err = (save cls env req img).err ∧
+    (save cls env req (saves cls env req n img)).out = (save cls env req img).out ∧
+    (save cls env req (saves cls env req n img)).log = (save cls env req img).log := by
+  have h := save_congr cls env req _ img (saves_core cls env req n img hwf henv)
+  exact ⟨h.1, h.2.1, h.2.2.1⟩
+
+/-! ### the file_map binding -/
+
+/-- **failed_save_bindings**: for every class without a `.mat` file, a save that raises ANYTHING (OSError
+    at any I/O call or byte budget, WriterError, HeaderDataError, ValueError, TypeError) leaves the image
+    bound to the file_map it had (`self.file_map = file_map` is the last statement of the `try:` body). -/
+theorem failed_save_bindings (cls : Cls) (env : Env) (req : SaveReq) (img : Img)
+    (hmat : cls.traits.hasMat = false) (herr : (save cls env req img).err ≠ none) :
+    (save cls env req img).img.fileMap = img.fileMap := by
+  unfold save finish at herr ⊢
+  simp only [] at herr ⊢
+  suffices h : (saveWorld cls env req.dtype req.fault { img := img.core }).2.bound = false by rw [h]; rfl
+  cases cls <;> simp only [saveWorld] at herr ⊢
+  · exact (analyzeSave_binds _ env _ _ _).2 herr
+  · cases hmat
+  · cases hmat
+  · exact (niftiSave_binds _ env _ _ _).2 herr
+  · exact (niftiSave_binds _ env _ _ _).2 herr
+  · exact (niftiSave_binds _ env _ _ _).2 herr
+  · exact (niftiSave_binds _ env _ _ _).2 herr
+  · exact (mghSave_binds _ env _ _ _).2 herr
+  · exact ciftiSave_bound env _ _ _
+
+example : Cls.n1single.traits.hasMat = false ∧ (save .n1single exEnv (exReq 10) exImg).err ≠ none := by decide
+
+/-- **successful_save_binds_target**: a save that completes binds the image to the file_map written
+    (all classes but CIFTI-2, which never rebinds). For the SPM classes this already holds once the
+    Analyze part is complete: a later failure of the `.mat` write leaves the image bound to the new map
+    (`spmSave_binds_of_ok` is used only for err = none here). -/
+theorem successful_save_binds_target (cls : Cls) (env : Env) (req : SaveReq) (img : Img)
+    (hc : cls ≠ .cifti2) (hok : (save cls env req img).err = none) :
+    (save cls env req img).img.fileMap = req.fileMap.getD img.fileMap := by
+  unfold save finish at hok ⊢
+  simp only [] at hok ⊢
+  suffices h : (saveWorld cls env req.dtype req.fault { img := img.core }).2.bound = true by rw [h]; rfl
+  cases cls <;> simp only [saveWorld] at hok ⊢
+  · exact (analyzeSave_binds _ env _ _ _).1 hok
+  · exact spmSave_binds_of_ok _ env _ _ _ hok
+  · exact spmSave_binds_of_ok _ env _ _ _ hok
+  · exact (niftiSave_binds _ env _ _ _).1 hok
+  · exact (niftiSave_binds _ env _ _ _).1 hok
+  · exact (niftiSave_binds _ env _ _ _).1 hok
+  · exact (niftiSave_binds _ env _ _ _).1 hok
+  · exact (mghSave_binds _ env _ _ _).1 hok
+  · exact absurd rfl hc
+
+example : (save .n1single exEnv ⟨.none, some 8, .none⟩ exImg).err = none ∧
+    (save .n1single exEnv ⟨.none, some 8, .none⟩ exImg).img.fileMap = 8 := by decide
+
+/-! ### histories -/
+
+def Op.ok (cls : Cls) : Op → Prop
+  | .save env _ => env.ok cls
+  | _ => True
+
+theorem setDtypeOp_wf (cls : Cls) (c : Nat) (k : Core) (h : Core.wf cls k) :
+    Core.wf cls (setDtypeOp cls c k).2 := by
+  unfold setDtypeOp Core.wf
+  simp only []
+  split
+  · rename_i hc; exact hc
+  · split <;> exact h
+
+theorem setAliasOp_wf (cls : Cls) (a : Alias) (k : Core) (h : Core.wf cls k) :
+    Core.wf cls (setAliasOp cls a k).2 := by
+  unfold setAliasOp Core.wf
+  split <;> exact h
+
+theorem run_erase (cls : Cls) (ops : List Op) (a b : Img) (hc : a.core = b.core) (hwf : a.wf cls)
+    (hok : ∀ op ∈ ops, op.ok cls) :
+    (run cls a ops).core = (run cls b (ops.filter fun op => !op.isSave)).core := by
+  induction ops generalizing a b with
+  | nil => exact hc
+  | cons op ops ih =>
+      have hok' : ∀ op ∈ ops, op.ok cls := fun o ho => hok o (by simp [ho])
+      cases op with
+      | save env req =>
+          have henv : env.ok cls := hok (.save env req) (by simp)
+          have hp := save_preserves_state cls env req a hwf henv
+          simp only [run, step, List.filter, Op.isSave, Bool.not_true]
+          exact ih _ b (by rw [hp, hc]) (by unfold Img.wf; rw [hp]; exact hwf) hok'
+      | setDtype c =>
+          simp only [run, step, List.filter, Op.isSave, Bool.not_false]
+          exact ih _ _ (by simp [hc]) (setDtypeOp_wf cls c a.core hwf) hok'
+      | setAlias al =>
+          simp only [run, step, List.filter, Op.isSave, Bool.not_false]
+          exact ih _ _ (by simp [hc]) (setAliasOp_wf cls al a.core hwf) hok'
+
+/-- **saves_erasable**: in ANY history of saves (arbitrary faults, overrides, destinations, external
+    behaviour) interleaved with `set_data_dtype` calls (dtypes or aliases), the final observable image is
+    the one obtained by the `set_data_dtype` calls alone — every save is observationally a no-op. -/
+theorem saves_erasable (cls : Cls) (ops : List Op) (img : Img) (hwf : img.wf cls)
+    (hok : ∀ op ∈ ops, op.ok cls) :
+    (run cls img ops).core = (run cls img (ops.filter fun op => !op.isSave)).core :=
+  run_erase cls ops img img rfl hwf hok
+
+/-- **histories_preserve**: any list of save requests leaves the observable image unchanged -/
+theorem histories_preserve (cls : Cls) (reqs : List (Env × SaveReq)) (img : Img) (hwf : img.wf cls)
+    (hok : ∀ r ∈ reqs, r.1.ok cls) :
+    (run cls img (reqs.map fun r => Op.save r.1 r.2)).core = img.core := by
+  have h := saves_erasable cls (reqs.map fun r => Op.save r.1 r.2) img hwf
+    (by intro op hop; simp at hop; obtain ⟨e, r, hr, rfl⟩ := hop; exact hok (e, r) hr)
+  rw [h]
+  have : ((reqs.map fun r => Op.save r.1 r.2).filter fun op => !op.isSave) = [] := by
+    simp only [List.filter_eq_nil_iff, List.mem_map]
+    rintro a ⟨r, _, rfl⟩; simp [Op.isSave]
+  rw [this]; rfl
+
+example : (run .n1single exImg [.save exEnv (exReq 3), .setDtype 4, .save exEnv (exReq 30), .setAlias .smallest,
+    .save exEnv (exReq 6)]).core = (run .n1single exImg [.setDtype 4, .setAlias .smallest]).core := by decide
+
+/-! ### witnesses for the ORIGINAL control flow of the pinned tree -/
+
+/-- ORIGINAL logic: an OSError at a data write (after `set_slope_inter`, before the restore at the end)
+    leaves the computed slope, intercept and offset in the header -/
+theorem orig_fault_leaves_slope_orig_counterexample :
+    let img : Img := { core := { hdr := ⟨0, 4, none, none⟩, alias := none, data := 1, affine := 2, hdrObj := 0 }, fileMap := 0 }
+    let o := saveOrig .n1single exEnv ⟨.none, some 1, .call 10⟩ img
+    o.err = some .os ∧ o.img.core.hdr = ⟨384, 4, some 1000, some 2000⟩ ∧ o.img.core ≠ img.core ∧
+    -- and the retry then writes UNSCALED data under that slope (scaled flag false in the data chunk)
+    (saveOrig .n1single exEnv ⟨.none, some 2, .none⟩ o.img).out ≠ (saveOrig .n1single exEnv ⟨.none, some 2, .none⟩ img).out := by
+  decide
+
+/-- ORIGINAL logic: a successful save with a dtype alias restores the alias but leaves the header
+    dtype at the resolved code (64 → 4) -/
+theorem orig_alias_changes_header_dtype_orig_counterexample :
+    let o := saveOrig .n1single exEnv ⟨.none, some 1, .none⟩ exImg
+    o.err = none ∧ o.img.core.alias = some .compat ∧ o.img.core.hdr.dtype = 4 ∧ exImg.core.hdr.dtype = 64 := by
+  decide
 
 end Nb.C07
